@@ -1374,6 +1374,7 @@ func TestVerif_C19(t *testing.T) {
 		rec.Violation("harness/cannot build the shard templates", err.Error(), nil)
 		return
 	}
+	defer os.RemoveAll(tdir)
 	env := []string{"C19_TEMPLATES=" + tdir}
 	runs := rec.N(20, 400)
 	first := 0
@@ -1392,7 +1393,7 @@ func TestVerif_C19(t *testing.T) {
 			defer wg.Done()
 			defer func() { <-sem }()
 			cfg := c19MakeCfg(rec.Seed, run, rec.Tier)
-			res := rec.RunChild("TestVerif_C19", "run", strconv.Itoa(run), env, 5*time.Minute)
+			res := rec.RunChild("TestVerif_C19", "run", strconv.Itoa(run), env, 8*time.Minute)
 			mu.Lock()
 			defer mu.Unlock()
 			switch {
